@@ -176,10 +176,9 @@ func monC23(h *Hist, o *TxnObs) {
 			post = h.stakePool(o.Post, "", req.ProviderID)
 		}
 	}
-	owner := h.W.Owner.ID
-	if ob, ok := o.Call.Meta["owner_before"].(string); ok && ob != "" && o.Txn.ToClientID == minersc.ADDRESS {
-		owner = ob
-	}
+	// the owner in force is the one recorded in the contract's settings node of the pre-state (ownership can be handed over by
+	// an earlier update_settings; generators that do not know about it must not make the hand-over look like a stranger)
+	owner := h.scOwner(o.Pre, o.Txn.ToClientID)
 	authorised := o.Txn.ClientID == owner || (isShutdown && pre != nil && o.Txn.ClientID == pre.Delegate)
 	h.C("C23", "kill_calls_judged")
 	r := h.Runs["C23"]
